@@ -298,7 +298,7 @@ func NewWorld(cfg Config) (w *World, err error) {
 	w.Store = NewStore(w.B)
 	w.Store.OneTime = cfg.OneTimeTOTP
 	w.Store.EmailPID = !cfg.Username
-	w.Mail = &Mailbox{}
+	w.Mail = &Mailbox{B: w.B}
 	w.SMS = &SMSOutbox{B: w.B}
 	w.Log = &LogCapture{}
 	if cfg.Browsers < 1 {
